@@ -221,22 +221,22 @@ def a_quote(E):
     return None
 
 
+class _Norm(ast.NodeTransformer):
+    def visit_JoinedStr(self, n):
+        self.generic_visit(n)
+        if all(isinstance(v, ast.Constant) and isinstance(v.value, str) for v in n.values):
+            return ast.Constant("".join(v.value for v in n.values))  # an f-string without placeholders is its text
+        return n
+
+
 def _norm_dump(node):
-    class T(ast.NodeTransformer):
-        def visit_Name(self, n):
-            if n.id == "Ellipsis" and isinstance(n.ctx, ast.Load):
-                return ast.Constant(Ellipsis)
-            return n
+    d = ast.dump(node)
+    if "JoinedStr(" in d:
+        import copy
 
-        def visit_JoinedStr(self, n):
-            self.generic_visit(n)
-            if all(isinstance(v, ast.Constant) and isinstance(v.value, str) for v in n.values):
-                return ast.Constant("".join(v.value for v in n.values))  # an f-string without placeholders is its text
-            return n
-
-    import copy
-
-    return ast.dump(T().visit(copy.deepcopy(node)))
+        d = ast.dump(_Norm().visit(copy.deepcopy(node)))
+    # the name Ellipsis evaluates to the constant (unless the builtin is shadowed)
+    return d.replace("Name(id='Ellipsis', ctx=Load())", "Constant(value=Ellipsis)")
 
 
 def a_extract(code):
@@ -354,7 +354,7 @@ def a_positions(E):
     return list(POS_A) if a_quote(E) else ["F"]
 
 
-def a_check(E, ref):
+def a_check(E, ref, path=None):
     """all positions of E -> dict position -> (symptom, detail); memoised per worker"""
     S = _state
     if E in S["memo_a"]:
@@ -362,7 +362,8 @@ def a_check(E, ref):
     cnt = S.setdefault("cnt", {"evaluations": 0})
     positions = a_positions(E)
     fails = a_run(E, ref, positions, cnt)
-    if fails and len(positions) > 1:
+    if fails and len(positions) > 1 and not (path and len(path) > 1 and a_has_failing_kind(path)):
+        # which positions?  (skipped when a kind of the tree fails on its own already: the failure is attributed to it)
         fails = {}
         for p in positions:
             fails.update(a_run(E, ref, [p], cnt))
@@ -371,6 +372,14 @@ def a_check(E, ref):
         S["dontcare_a"] = S.get("dontcare_a", 0) + 1
     S["memo_a"][E] = fails
     return fails
+
+
+def a_has_failing_kind(path):
+    for lab in path_kinds(path):
+        s0 = X.source(X.build(lab))
+        if s0 and a_check(s0[0], s0[1]):
+            return True
+    return False
 
 
 VARIANT_NAME = {"Fk": "keyword", "Fs": "star", "Fd": "double-star", "Fm": "mixed-with-double-star"}
@@ -425,19 +434,24 @@ def a_sig(path, fails, tested):
 
 
 def a_case(path, node, st, seed, dedupe, shard=None):
+    if shard is not None:
+        try:
+            E0 = ast.unparse(node)
+        except Exception:  # noqa
+            E0 = repr(path)
+        if zlib.crc32(E0.encode("utf-8")) % shard[1] != shard[0]:
+            return
     s = X.source(node)
     if s is None:
         st.extra["a_not_python"] = st.extra.get("a_not_python", 0) + 1
         return
     E, ref = s
-    if shard is not None and zlib.crc32(E.encode("utf-8")) % shard[1] != shard[0]:
-        return
     if E in dedupe:
         return
     dedupe.add(E)
     S = _state
     cnt = S.setdefault("cnt", {"evaluations": 0})
-    fails = a_check(E, ref)
+    fails = a_check(E, ref, path)
     tested = a_positions(E)
     st.states += 1
     st.traces += 1
@@ -614,15 +628,22 @@ def b_sig(block, forms, layout, res, counts):
         return b_execute(BL.template_for(lines, lay[0], lay[1], lay[2], lay[3], lay[4]), exp, counts) is not None
 
     kinds = "+".join(sorted(set(_kinds(block))))
+    cache = _state.setdefault("sig_b", {})
+    ck = (block, tuple(forms), sym)
+    if ck in cache:
+        return cache[ck]
     if fails(plain, CANON):
-        return "remargin:stmt=%s:%s" % (kinds, sym)
+        cache[ck] = "remargin:stmt=%s:%s" % (kinds, sym)
+        return cache[ck]
     if special and fails(forms, CANON):
         if len(special) > 1:
             for f in special:
                 one = [x if x == f else "plain" for x in forms]
                 if fails(one, CANON):
-                    return "remargin:form=%s:%s" % (f, sym)
-        return "remargin:form=%s:%s" % ("+".join(special), sym)
+                    cache[ck] = "remargin:form=%s:%s" % (f, sym)
+                    return cache[ck]
+        cache[ck] = "remargin:form=%s:%s" % ("+".join(special), sym)
+        return cache[ck]
     # which layout components are necessary?
     m, unit, fs, eol, pos = layout
     need = ""
@@ -669,15 +690,16 @@ def layouts(tier, level):
         return out
     if level == "std":
         for m in BL.MARGINS:
-            for pos in POS:
+            out.append((m, "    ", False, "\n", "body"))
+        for m in ("    ", "\t"):
+            for pos in POS[1:]:
                 out.append((m, "    ", False, "\n", pos))
-        for m in ("    ", "\t", "       "):
-            for fs, eol in ((True, "\n"), (False, "\r\n"), (True, "\r\n")):
-                for pos in POS:
-                    out.append((m, "    ", fs, eol, pos))
-        for m in ("", "\t"):
-            for pos in POS:
-                out.append((m, "\t", False, "\n", pos))
+        out.append(("    ", "    ", True, "\n", "body"))
+        out.append(("\t", "    ", False, "\r\n", "body"))
+        out.append(("       ", "    ", True, "\r\n", "body"))
+        out.append(("    ", "    ", True, "\r\n", "module"))
+        out.append(("\t", "\t", False, "\n", "body"))
+        out.append(("", "\t", False, "\n", "ctl"))
         return out
     if level == "min":
         for m in BL.MARGINS:
@@ -763,6 +785,7 @@ def run_b(job, st):
         S["memo_b"].clear()
         S["tree_b"].clear()
         S["seen_b"].clear()
+        S.get("sig_b", {}).clear()
     st.evaluations += counts["lex"] + counts["compile"]
     st.transitions += counts["lex"] + counts["compile"]
     st.extra["b_lexer_runs"] = counts["lex"]
@@ -830,8 +853,11 @@ def c_mako(case, removed):
     return ("exc", exc_class(val), _QNAME.findall(str(val)), isinstance(val, NameError), str(val)[:200], classify_exc(val))
 
 
-def c_judge(case, removed, bound, free):
-    """-> None or (symptom, detail, expected)"""
+REEMIT_POS = ("def-default-top", "def-default-nested", "filter-arg", "block-filter")
+
+
+def c_judge(case, removed, bound, free, pos=""):
+    """-> None (holds) | "skip" | (symptom, detail, expected)"""
     nat = c_native(case, removed)
     if nat[0] == "not-python":
         return "skip"
@@ -844,15 +870,17 @@ def c_judge(case, removed, bound, free):
                 return None
             if mk[3]:  # a NameError
                 names = mk[2]
-                strict = mk[4].startswith("'")
-                role = "other"
-                if names and names[0] in bound:
-                    role = "bound-name"
-                elif names and names[0] in free:
-                    role = "supplied-free-name"
-                return (("demanded-from-context:" if strict else "unresolved-at-run-time:") + role, "%s: %s" % (mk[1], mk[4]), nat[1])
+                nme = names[0] if names else "?"
+                detail = "%s: %s" % (mk[1], mk[4])
+                if mk[4].startswith("'"):  # raised by the generated strict_undefined lookup
+                    return ("demanded-from-context", detail, nat[1])
+                if mk[1] == "UnboundLocalError" and pos.startswith("def-default") and nme not in bound:
+                    return ("context-name-fetched-after-def", detail, nat[1])
+                if nme in free:
+                    return ("free-name-not-obtained", detail, nat[1])
+                return ("name-bound-in-inner-scope-not-obtained", detail, nat[1])
             return (mk[5], "%s: %s" % (mk[1], mk[4]), nat[1])
-        # native raises with the full environment (e.g. reading a deleted name): same class family expected
+        # the native run raises with the full environment (e.g. reading a deleted name): same class family expected
         if mk[0] == "out":
             return ("value", "renders %r where the native run raises %s" % (mk[1], nat[1]), nat[1])
         if nat[3] != mk[3] or (not nat[3] and nat[1] != mk[1]):
@@ -877,116 +905,272 @@ def c_judge(case, removed, bound, free):
     return (mk[5], "%s: %s" % (mk[1], mk[4]), nat)
 
 
+WRAPPERS = [
+    ("~in-lambda", "(lambda: %s)()"), ("~in-lambda-vararg", "(lambda *a9: %s)(1)"), ("~in-comp-elt", "[%s for i9 in (1,)][0]"),
+    ("~in-comp-if", "[1 for i9 in (1,) if N19(%s)]"), ("~in-nested-lambda", "(lambda: (lambda: %s)())()"),
+    ("~in-dictcomp-value", "{1: %s for i9 in (1,)}[1]"), ("~in-genexp", "list(%s for i9 in (1,))[0]"),
+]
+E_LEAKS = {"walrus.same-expression": "w", "walrus.in-comp": "w"}
+S_LEAKS = {
+    "except-as": "e", "with-as": "w", "with-as-tuple": "b", "for.tuple-target": "b", "for.starred-target": "b", "for.else": "a",
+    "import.as": "q", "import.dotted": "os", "from-import": "sep", "walrus.if": "w", "class.body": "C", "match.sequence": "q",
+    "match.mapping": "rest", "match.as": "n", "match.guard": "p", "def.pos": "g", "del": "t", "try-finally": "t",
+    "lambda-assigned.vararg-kwonly": "g",
+}
+
+
 def c_cases(tier):
-    """yield (label, posname, canonical-position?, case, bound, free, outside)"""
-    leaks = {
-        "walrus.same-expression": "w", "walrus.in-comp": "w",
-    }
-    wrappers = [("", "%s")]
-    if tier == "thorough":
-        wrappers += [
-            ("~in-lambda", "(lambda: %s)()"), ("~in-lambda-vararg", "(lambda *a9: %s)(1)"), ("~in-comp-elt", "[%s for i9 in (1,)][0]"),
-            ("~in-comp-if", "[1 for i9 in (1,) if N19(%s)]"), ("~in-nested-lambda", "(lambda: (lambda: %s)())()"),
-            ("~in-dictcomp-value", "{1: %s for i9 in (1,)}[1]"), ("~in-genexp", "list(%s for i9 in (1,))[0]"),
-        ]
-    for label, E0, free, bound in BI.EXPRS:
+    """yield dict(core, outside, pos, canon, case, bound, free, E)"""
+    wrappers = [("", "%s")] + (WRAPPERS if tier == "thorough" else [])
+    # baseline: a plain free name in every position
+    for label, E0, free, bound in [("plain-name", "z", ["z"], [])] + BI.EXPRS:
         for wl, wr in wrappers:
+            if wl and label == "plain-name":
+                continue
             E = wr % E0
-            outs = [None] + ([bound[0]] if bound else []) + ([leaks[label]] if label in leaks else [])
-            for outside in outs:
-                if wl and outside:
-                    continue
+            outs = [(None, None)]
+            if not wl:
+                if bound:
+                    outs.append(("own", bound[0]))
+                if label in E_LEAKS:
+                    outs.append(("leaked", E_LEAKS[label]))
+            for okind, oname in outs:
                 for pos in BI.EXPR_POSITIONS:
-                    case = BI.expr_case(label, E, free, bound, pos, outside)
+                    case = BI.expr_case(label, E, free, bound, pos, oname)
                     if case is None:
                         continue
-                    lab = label + wl + (">read-outside:" + ("own" if outside in bound else "leaked") if outside else "")
-                    yield lab, pos, pos == "expr", case, bound, free
-    sleaks = {
-        "except-as": "e", "with-as": "w", "with-as-tuple": "b", "for.tuple-target": "b", "for.starred-target": "b", "for.else": "a",
-        "import.as": "q", "import.dotted": "os", "from-import": "sep", "walrus.if": "w", "class.body": "C", "match.sequence": "q",
-        "match.mapping": "rest", "match.as": "n", "match.guard": "p", "def.pos": "g", "del": "t", "try-finally": "t",
-        "lambda-assigned.vararg-kwonly": "g",
-    }
+                    if okind == "leaked":  # a name the code binds in the enclosing scope: a local natively, not supplied
+                        case["ctx_names"] = [n for n in case["ctx_names"] if n != oname]
+                    yield {"core": label + wl, "outside": okind, "pos": pos, "canon": "expr", "case": case, "bound": bound, "free": free, "E": E}
     for label, code, free, bound in BI.STMTS:
-        outs = [None] + ([bound[0]] if bound else []) + ([sleaks[label]] if label in sleaks else [])
-        for outside in outs:
+        outs = [(None, None)]
+        if bound:
+            outs.append(("own", bound[0]))
+        if label in S_LEAKS:
+            outs.append(("leaked", S_LEAKS[label]))
+        for okind, oname in outs:
             for pos in BI.STMT_POSITIONS:
-                if pos == "module" and outside and label in ("del", "except-as"):
-                    continue  # a name deleted at module level: which namespace answers is not fixed
-                case = BI.stmt_case(label, code, free, bound, pos, outside)
-                lab = label + (">read-outside:" + ("own" if outside in bound else "leaked") if outside else "")
-                yield lab, pos, pos == "code", case, bound, free
+                if pos == "module" and oname and label in ("del", "except-as"):
+                    continue  # a name deleted at module level: which namespace answers afterwards is not fixed
+                case = BI.stmt_case(label, code, free, bound, pos, oname)
+                if okind == "leaked":
+                    case["ctx_names"] = [n for n in case["ctx_names"] if n != oname]
+                yield {"core": label, "outside": okind, "pos": pos, "canon": "code", "case": case, "bound": bound, "free": free, "E": None}
     for label, tmpl, native, free in BI.CTLS:
-        yield label, "ctl", True, BI.ctl_case(label, tmpl, native, free), [], free
+        yield {"core": label, "outside": None, "pos": "ctl", "canon": "ctl", "case": BI.ctl_case(label, tmpl, native, free),
+               "bound": [], "free": free, "E": None}
 
 
-def c_sig(label, pos, canon_fails, sym):
-    pos0 = pos.split(":")[0]
-    if canon_fails:
-        return "bind:%s:%s" % (label, sym)
-    return "bind:%s@%s:%s" % (label, pos0, sym)
+def c_full(c):
+    """memoised full-environment verdict of a case"""
+    S = _state
+    key = (c["case"]["template"], None)
+    if key not in S["memo_c"]:
+        S["memo_c"][key] = c_judge(c["case"], None, c["bound"], c["free"], c["pos"])
+        S["c_runs"] = S.get("c_runs", 0) + 1
+    return S["memo_c"][key]
+
+
+def c_fails(c):
+    r = c_full(c)
+    return r is not None and r != "skip"
+
+
+def c_reemission_broken(c):
+    if c["E"] is None or c["pos"].split(":")[0] not in REEMIT_POS:
+        return False
+    try:
+        ref = ast.parse(c["E"], mode="eval").body
+    except SyntaxError:
+        return False
+    return bool(a_check(c["E"], ref))
+
+
+def _parents(tree):
+    par = {}
+    for node in ast.walk(tree):
+        for f, v in ast.iter_fields(node):
+            for ch in v if isinstance(v, list) else [v]:
+                if isinstance(ch, ast.AST):
+                    par[ch] = (node, f)
+    return par
+
+
+def binder_kind(code, name):
+    """how `name` is bound in `code` (CPython's ast decides): the first binder found"""
+    try:
+        tree = ast.parse(code)
+    except SyntaxError:
+        return "?"
+    par = _parents(tree)
+    for node in ast.walk(tree):
+        if isinstance(node, ast.arguments):
+            owner = par[node][0]
+            pre = "lambda-parameter." if isinstance(owner, ast.Lambda) else "def-parameter."
+            for fld, kind in (("posonlyargs", "positional-only"), ("args", "positional"), ("kwonlyargs", "keyword-only")):
+                if any(a.arg == name for a in getattr(node, fld)):
+                    return pre + kind
+            if node.vararg is not None and node.vararg.arg == name:
+                return pre + "*args"
+            if node.kwarg is not None and node.kwarg.arg == name:
+                return pre + "**kwargs"
+    for node in ast.walk(tree):
+        if isinstance(node, (ast.MatchAs, ast.MatchStar)) and node.name == name:
+            return "match-capture"
+        if isinstance(node, ast.MatchMapping) and node.rest == name:
+            return "match-capture"
+        if isinstance(node, ast.ExceptHandler) and node.name == name:
+            return "except-as"
+        if isinstance(node, ast.Name) and node.id == name and isinstance(node.ctx, ast.Store):
+            n, up = node, par.get(node)
+            while up is not None:
+                owner, f = up
+                if isinstance(owner, ast.comprehension) and f == "target":
+                    return "comprehension-variable"
+                if isinstance(owner, ast.NamedExpr) and f == "target":
+                    return "walrus-target"
+                if isinstance(owner, (ast.For, ast.AsyncFor)) and f == "target":
+                    return "for-target"
+                if isinstance(owner, ast.withitem):
+                    return "with-as"
+                if not isinstance(owner, (ast.Tuple, ast.List, ast.Starred)):
+                    break
+                n, up = owner, par.get(owner)
+            return "assignment"
+    return "?"
+
+
+def read_location(code, name):
+    """where `name` is read in `code`: the syntactic slot of its first Load"""
+    try:
+        tree = ast.parse(code)
+    except SyntaxError:
+        return "?"
+    par = _parents(tree)
+    for node in ast.walk(tree):
+        if isinstance(node, ast.Name) and node.id == name and isinstance(node.ctx, ast.Load):
+            chain = []
+            up = par.get(node)
+            while up is not None:
+                chain.append((type(up[0]).__name__, up[1]))
+                up = par.get(up[0])
+            infn = any(t in ("Lambda", "FunctionDef") and f == "body" for t, f in chain)
+            for t, f in chain:
+                if t == "arguments" and f in ("defaults", "kw_defaults"):
+                    return "parameter-default"
+                if (t == "arg" and f == "annotation") or (t == "FunctionDef" and f == "returns"):
+                    return "annotation"
+                if t in ("FunctionDef", "ClassDef") and f == "decorator_list":
+                    return "decorator"
+                if t == "ClassDef" and f in ("bases", "keywords"):
+                    return "class-base"
+                if t == "ClassDef" and f == "body":
+                    return "class-body"
+                if t in ("ListComp", "SetComp", "GeneratorExp", "DictComp") and f in ("elt", "key", "value") and infn:
+                    return "comprehension-element-inside-function"
+                if t == "comprehension" and f == "ifs" and infn:
+                    return "comprehension-condition-inside-function"
+                if t == "comprehension" and f == "iter" and infn:
+                    return "comprehension-iterable-inside-function"
+            return "expression"
+    return "?"
+
+
+POS_FAMILY = {"filter-arg": "filter-arguments", "block-filter": "filter-arguments", "def-default-top": "def-default",
+              "def-default-nested": "def-default"}
+
+
+def c_feature(c, sym, detail):
+    code = (c["case"]["mod"] + "\n" + c["case"]["body"]).strip()
+    names = _QNAME.findall(detail.split(" (native")[0])
+    nme = names[0] if names else None
+    if sym == "demanded-from-context" and nme:
+        return binder_kind(code, nme)
+    if sym == "free-name-not-obtained" and nme:
+        return "read-in-" + read_location(code, nme)
+    if sym == "name-bound-in-inner-scope-not-obtained" and nme:
+        return "outside-read-of-" + binder_kind(code, nme)
+    return c["core"]
+
+
+def c_sig(c, res, index):
+    """signature = symptom + the syntactic feature CPython's ast assigns to the name involved; the template position only
+    when the same code holds in the canonical position"""
+    core, outside, pos = c["core"], c["outside"], c["pos"]
+    sym, detail = res[0], res[1]
+    if sym == "context-name-fetched-after-def":
+        return "bind:def-default:context-name-fetched-after-def"
+    # the simplest failing relative explains the failure
+    for key in ((core, None, c["canon"]), (core, None, pos), (core, outside, c["canon"])):
+        rel = index.get(key)
+        if rel is not None and rel is not c and c_fails(rel) and not c_reemission_broken(rel):
+            r = c_full(rel)
+            if r[0] != "context-name-fetched-after-def":
+                return c_sig(rel, r, index)
+    feat = c_feature(c, sym, detail)
+    where = ""
+    if pos != c["canon"] and sym != "name-bound-in-inner-scope-not-obtained":
+        pf = pos.split(":")[0]
+        where = "@" + POS_FAMILY.get(pf, pf)
+    plain = sym in ("name-bound-in-inner-scope-not-obtained", "demanded-from-context", "free-name-not-obtained")
+    return "bind:%s:%s%s%s" % (sym, feat, where, ">read-outside" if outside and not plain else "")
 
 
 def run_c(job, st):
     S = setup(job["seed"])
+    S["cnt"] = {"evaluations": 0}
     allc = list(c_cases(job["tier"]))
-    # canonical-position verdicts first (needed for the signature of position-specific failures)
-    canon = {}
-    n = 0
-    for idx, (label, pos, is_canon, case, bound, free) in enumerate(allc):
-        mine = idx % job["nshards"] == job["shard"]
-        if not mine:
+    index = {(c["core"], c["outside"], c["pos"]): c for c in allc}
+    cores = sorted(set(c["core"] for c in allc))
+    mine = set(cores[job["shard"]::job["nshards"]])
+    done = set()
+    for c in allc:
+        if c["core"] not in mine:
             continue
-        removals = [None] + sorted(set(free))
-        for removed in removals:
-            key = (case["template"], removed)
-            if key in S["memo_c"]:
-                continue
-            res = c_judge(case, removed, bound, free)
-            S["memo_c"][key] = res
+        case = c["case"]
+        if case["template"] in done:
+            continue
+        done.add(case["template"])
+        posfam = c["pos"].split(":")[0]
+        for removed in [None] + sorted(set(c["free"])):
+            if removed is None:
+                res = c_full(c)
+            else:
+                res = c_judge(case, removed, c["bound"], c["free"], c["pos"])
+                S["c_runs"] = S.get("c_runs", 0) + 1
             if res == "skip":
                 st.extra["c_not_python"] = st.extra.get("c_not_python", 0) + 1
-                continue
-            n += 2 if removed is None else 1
-            st.evaluations += 1
-            st.transitions += 1
+                break
             st.states += 1
             st.traces += 1
             st.oracles["c_full_env" if removed is None else "c_name_removed"] += 1
-            if bound and free:
+            if c["bound"] and c["free"]:
                 st.nontrivial += 1
             if res is None:
-                st.outcomes[("c", "holds", pos.split(":")[0], "removed" if removed else "full")] += 1
+                st.outcomes[("c", "holds", posfam, "removed" if removed else "full")] += 1
                 continue
+            if c_reemission_broken(c):
+                # the position re-emits the expression and the re-emitted text is already wrong: part (a) reports that
+                st.outcomes[("c", "masked-by-reemission", posfam)] += 1
+                break
             sym, detail, expected = res
-            cf = True
-            if not is_canon:
-                ck = (label, removed)
-                if ck not in canon:
-                    canon[ck] = _c_canonical_fails(label, removed, job["tier"])
-                cf = canon[ck]
-            sig = c_sig(label, pos, cf, sym)
+            sig = c_sig(c, res, index)
             st.outcomes[("c", sig)] += 1
             st.violation(
                 sig,
-                {"part": "c", "label": label, "pos": pos, "removed": removed, "bound": list(bound), "free": list(free),
-                 "case": case, "seed": job["seed"]},
+                {"part": "c", "label": c["core"], "outside": c["outside"], "pos": c["pos"], "removed": removed,
+                 "bound": list(c["bound"]), "free": list(c["free"]), "case": case, "seed": job["seed"]},
                 "binding analysis: %s" % sym, expected=expected, observed=detail,
             )
-            if st.states % 499 == 1:
-                st.sample({"part": "c", "label": label, "pos": pos, "template": case["template"], "removed": removed})
-    st.extra["c_cases"] = st.states
-
-
-def _c_canonical_fails(label, removed, tier):
-    for lab, pos, is_canon, case, bound, free in c_cases(tier):
-        if lab == label and is_canon:
-            if removed is not None and removed not in free:
-                return False
-            r = c_judge(case, removed, bound, free)
-            return r is not None and r != "skip"
-    return True
+            if removed is None:
+                break  # the name-removal runs of a case that fails with its full environment say nothing new
+        if st.states % 199 == 1:
+            st.sample({"part": "c", "label": c["core"], "pos": c["pos"], "template": case["template"]})
+    ev = S.get("c_runs", 0) + S["cnt"]["evaluations"]
+    S["c_runs"] = 0
+    st.evaluations += ev
+    st.transitions += ev
+    st.extra["c_cases"] = st.extra.get("c_cases", 0) + st.states
 
 
 # ------------------------------------------------------------------ plan / run / replay
@@ -1064,7 +1248,7 @@ def replay(case):
             return False, "reproduced: %r (native %s)" % (res, env["__r19"])
         return True, "holds"
     if case["part"] == "c":
-        res = c_judge(case["case"], case["removed"], case["bound"], case["free"])
+        res = c_judge(case["case"], case["removed"], case["bound"], case["free"], case.get("pos", ""))
         if res is not None and res != "skip":
             return False, "reproduced: %r" % (res,)
         return True, "holds"
